@@ -431,6 +431,7 @@ fn configurations(ctx: &Ctx, thorough: bool) {
     let bases = faults::based_files(false);
     fams.extend(faults::m2(&bases, false).into_iter().filter(|f| f.name.starts_with("M2-field") && (thorough || !f.name.ends_with("-big"))));
     fams.push(faults::m3());
+    fams.push(faults::m7());
     {
         let dims: Vec<usize> = (0..2).flat_map(|_| crate::props::c02::LAYER_DIMS.iter().copied()).collect();
         let vecs = Arc::new(ball_vec(&dims, 2));
